@@ -18,6 +18,9 @@ struct DagCase {
     dag: Dag,
     stages: Vec<u8>,
     alone: bool,
+    /// (alone only) write with --changed-paths: every file additionally carries the BIDX/BDAT bloom filter chunks
+    #[serde(default)]
+    bloom: bool,
 }
 
 /// whole-file observations on the pooled graph of all n-commit DAGs in one layout
@@ -216,7 +219,7 @@ static GIT_WRITES: AtomicU64 = AtomicU64::new(0);
 
 /// Let git write the graph files: stage j adds the commits `stage_ids[j]` (closed under parents together with the earlier stages).
 /// Err = gitoxide could not open what git wrote (a violation message `class: detail`).
-fn build_layout(sh: &Shared, stage_ids: &[Vec<ObjectId>], split: bool, reachable: bool) -> Result<Layout, String> {
+fn build_layout(sh: &Shared, stage_ids: &[Vec<ObjectId>], split: bool, reachable: bool, bloom: bool) -> Result<Layout, String> {
     let dir = vkit::scratch::Dir::new("c14layout");
     let info = dir.join("objects/info");
     for p in ["objects/info", "refs/heads"] {
@@ -233,6 +236,9 @@ fn build_layout(sh: &Shared, stage_ids: &[Vec<ObjectId>], split: bool, reachable
         let mut args = vec!["commit-graph", "write"];
         if split {
             args.push("--split=no-merge");
+        }
+        if bloom {
+            args.push("--changed-paths");
         }
         if reachable {
             for (k, id) in ids.iter().enumerate() {
@@ -453,7 +459,7 @@ pub fn run(run: &'static Run) {
          Layouts per DAG: one non-split commit-graph file, and every composition of n into 1..4 stages of commits (index order) with one \
          `git commit-graph write --split=no-merge` per stage => chains of 1..4 files; the graph is opened and compared after EVERY stage, the final one \
          also through Graph::at(info dir | commit-graphs dir | file). \
-         Sub dags-alone (graph files hold just that DAG, written with --reachable): quick n<=3 ordered x 3 patterns; thorough n<=4 ordered x 3 patterns + wide(5). \
+         Sub dags-alone (graph files hold just that DAG, written with --reachable, once plain and once with --changed-paths = extra BIDX/BDAT chunks in every file): quick n<=3 ordered x 3 patterns; thorough n<=4 ordered x 3 patterns + wide(5). \
          Sub dags-pooled (graph files hold ALL DAGs of that size at once, cut into stages the same way, written with --stdin-commits; thousands of commits \
          per file, hundreds of extra-edge lists): quick n<=4 ordered x 3 patterns, n=5 ascending x 3 patterns + wide(5); thorough n<=5 ordered x 3 patterns + \
          wide(5), n=6 ascending x big + wide(6). Sub pooled-graphs: whole-file observations for every pooled layout. \
@@ -557,7 +563,7 @@ pub fn run(run: &'static Run) {
                             stage_ids.push(v);
                             start += len;
                         }
-                        build_layout(sh, &stage_ids, split, false)
+                        build_layout(sh, &stage_ids, split, false, false)
                     });
                     match r {
                         Ok(l) => *slots[k].lock().unwrap() = Some(l),
@@ -595,7 +601,7 @@ pub fn run(run: &'static Run) {
                 stage_ids.push(ids[start..start + len].to_vec());
                 start += len;
             }
-            own = match build_layout(sh, &stage_ids, split, true) {
+            own = match build_layout(sh, &stage_ids, split, true, c.bloom) {
                 Ok(l) => l,
                 Err(e) => return verdict_of(e),
             };
@@ -642,7 +648,8 @@ pub fn run(run: &'static Run) {
             TWO_OCTOPUS.fetch_add(1, Ordering::Relaxed);
         }
         let class = format!(
-            "{}{}{}",
+            "{}{}{}{}",
+            if c.bloom { "bloom:" } else { "" },
             if split { format!("chain-{}", sizes.len()) } else { "single".into() },
             match d.max_parents() {
                 0 | 1 => "",
@@ -660,9 +667,14 @@ pub fn run(run: &'static Run) {
     };
 
     let emit_layouts = |d: &Dag, is_alone: bool, emit: &mut dyn FnMut(DagCase)| {
-        emit(DagCase { dag: d.clone(), stages: vec![], alone: is_alone });
-        for s in compositions(d.n()) {
-            emit(DagCase { dag: d.clone(), stages: s, alone: is_alone });
+        for bloom in [false, true] {
+            if bloom && !is_alone {
+                continue;
+            }
+            emit(DagCase { dag: d.clone(), stages: vec![], alone: is_alone, bloom });
+            for s in compositions(d.n()) {
+                emit(DagCase { dag: d.clone(), stages: s, alone: is_alone, bloom });
+            }
         }
     };
     run.sub_with(
